@@ -32,6 +32,11 @@ def cases(tier, seed):
     for fam, rate, bs in gen:
         shape = files.small_shape_for(bs, rng, blocks=(2, 3), cap=400_000 if tier == 'quick' else 1_500_000)
         d = files.wspec_desc(rng, shape, rate, bs, narr=rng.choice([2, 3]))
+        if len(out) % 2 == 0:
+            # inline and crossline numbers drawn from overlapping ranges with different origins: the same number names a
+            # different ordinal on the two axes
+            k0 = rng.choice([0, 1, 10])
+            d.update(il=[k0, 1], xl=[k0 + rng.choice([1, 2, 3]), 1])
         for h in range(nh):
             out.append({'id': 'w3:%s:%s:%s:%d' % (fam, rate, 'x'.join(map(str, bs)), h), 'file': d,
                         'nops': rng.choice([40, 80]), 'hseed': rng.randrange(1 << 30), 'cost': 4})
@@ -77,6 +82,21 @@ def make_history(sp, rng, nops):
     else:
         base = reads.ops_3d(sp.shape, sp.bs, rng, 24, tracecount=sp.ntr)
     base += header_ops(sp, rng, 8)
+    pairs = []
+    if not sp.is2d:
+        # by line number / coordinate; numbers present on both axes are asked of both axes one after the other
+        il, xl, zs = [int(v) for v in sp.ilines()], [int(v) for v in sp.xlines()], [float(v) for v in sp.samples()]
+        both = sorted(set(il) & set(xl))
+        for _ in range(6):
+            n = rng.choice(both) if both and rng.random() < 0.7 else None
+            a = ('read_inline_number', (n if n is not None else rng.choice(il),))
+            b = ('read_crossline_number', (n if n is not None else rng.choice(xl),))
+            base += [a, b]
+            pairs.append((a, b))
+        for _ in range(3):
+            base.append(('read_zslice_coord', (rng.choice(zs),)))
+            lo = rng.randrange(len(zs))
+            base.append(('get_trace_by_coord', (rng.randrange(sp.ntr), zs[lo], zs[rng.randrange(lo, len(zs))] + (zs[1] - zs[0]))))
     objs = ['R0', 'R1', 'R2', 'E', 'E.acc'] + ([] if sp.is2d else ['X'])
     hist = []
     # directed prefixes on one reader: every stored header array loaded one way, then headers regenerated the other way (and back)
@@ -92,7 +112,11 @@ def make_history(sp, rng, nops):
         hist += [(o, ('get_tracefield_1d', (k,))) for k in sp.stored] + [(o, x) for x in hd] + [(o, ('gen_trace_header', (0,), {'load_all_headers': True}))] + [(o, x) for x in tf]
     while len(hist) < nops:
         mode = rng.random()
-        if mode < 0.15:
+        if pairs and mode > 0.93:
+            o = rng.choice(objs[:4])
+            a, b = rng.choice(pairs)
+            hist += [(o, a), (o, b)] if rng.random() < 0.5 else [(o, b), (o, a)]
+        elif mode < 0.15:
             hist.append(('ctl', rng.choice(['open_other', 'close_other', 'reopen'])))
         elif mode < 0.45 and hist:
             # repeat or alternate recent ops, possibly on another object
